@@ -60,80 +60,80 @@ var assumeCommon = []string{
 }
 
 var All = []*Spec{
-	{ID: "C04", Engine: "wire", Level: "exploration", Quick: 24000, Thorough: 2400000,
+	{ID: "C04", Engine: "wire", Level: "exploration", Quick: 60000, Thorough: 3000000,
 		Rule: "each run draws side, entry point (Reader loop with callbacks, NextReader, ReadMessage(+side variants), ReadData and its six variants), a valid frame stream (1-6 messages, 1-5 fragments incl. empty, pings/pongs anywhere, lengths around 125/126 and 65535/65536), a transport segmentation mode and caller buffer sizes from the seed; non-trivial = at least one transport read ended strictly inside the stream (a real split) or a fault fired; distinct = distinct event-trace digests among those",
 		Stub: stubWire, Assume: assumeCommon,
 		LevelText: "seeded exploration: every run is one exactly repeatable execution of the real reader stack on a simulated transport; the oracle is a message-level reference model (exact payloads, headers, callback order) plus a byte ledger (no over-read). Sampling over streams x segmentations x buffer sizes, not proof.",
 		LevelNote: "trusted: reference encoder and model in /verif/ref and /verif/wire; assumes a reliable ordered byte stream that only segments (faults are C16's).",
 		DesignRef: "§4 C04", Technique: "deterministic simulation: seeded transport segmentation + reference message model"},
-	{ID: "C05", Engine: "wire", Level: "exploration", Quick: 24000, Thorough: 2400000,
+	{ID: "C05", Engine: "wire", Level: "exploration", Quick: 80000, Thorough: 6000000,
 		Rule: "each run draws a valid prefix (0-3 messages, any fragmentation, interleaved controls), a position k (message open or not), one frame breaking exactly the drawn RFC 6455 rule in that state (reserved opcode, control >125, control not final, RSV without extension, wrong mask bit, nested data / stray continuation, length above a MaxFrameSize drawn around it), followed by the rest of the stream; entry point, segmentation and buffers from the seed; non-trivial = a transport read split inside the stream; distinct = trace digests",
 		Stub: stubWire, Assume: assumeCommon,
 		LevelText: "seeded exploration of (valid prefix x offending frame x state x chunking); oracle: everything before frame k delivered exactly as for a valid stream, the call asking for frame k returns ws.ProtocolError or ErrFrameTooLarge, no marker byte of frame k or later is ever delivered.",
 		LevelNote: "trusted: the RFC rule table in /verif/ref (independent of ws.CheckHeader); which rule is named is not checked.",
 		DesignRef: "§4 C05", Technique: "deterministic simulation: seeded invalid-frame injection + reference rule table"},
-	{ID: "C06", Engine: "wire", Level: "exploration", Quick: 24000, Thorough: 2400000,
+	{ID: "C06", Engine: "wire", Level: "exploration", Quick: 80000, Thorough: 6000000,
 		Rule: "each run draws a constructor (NewWriter, NewWriterSize, NewWriterBufferSize, NewWriterBuffer, GetWriter), a buffer size around the 125/126 and 65535/65536 header-reservation thresholds, side, opcode, DisableFlush, extension, and a history of 1-12 calls from {Write, Write(empty), ReadFrom (chunked source, optional trailing error), io.Copy, WriteThrough, FlushFragment, Flush, Grow} with sizes relative to the buffer, or one of the seven WriteMessage helpers; non-trivial = history longer than one call; distinct = trace digests (destination write-call boundaries)",
 		Stub: stubWire, Assume: assumeCommon,
 		LevelText: "seeded exploration of call histories; after every call the bytes received by the destination are decoded by the reference decoder: whole frames at every call boundary, first frame opcode / continuations / only the last final, RSV only from the extension, MASK iff client with payload = accepted bytes, Flush of nothing emits nothing, fits-the-buffer => one frame, DisableFlush => nothing before Flush then one frame, Buffered() = accepted minus sent.",
 		LevelNote: "fault-free destination (write failures are C16's); whether a zero-length write followed by Flush yields an empty message or nothing is left open; ErrNotEmpty from WriteThrough is a legal refusal.",
 		DesignRef: "§4 C06", Technique: "deterministic simulation: seeded call histories vs reference frame decoder on the destination ledger"},
-	{ID: "C07", Engine: "wire", Level: "exploration", Quick: 24000, Thorough: 2400000,
+	{ID: "C07", Engine: "wire", Level: "exploration", Quick: 80000, Thorough: 6000000,
 		Rule: "each run builds 1-3 text/binary messages from a structured UTF-8 cover (boundary runes of every length, overlongs, surrogates, >U+10FFFF, truncated tails, every lead byte x boundary continuation bytes), splits them into fragments at arbitrary bytes (also inside sequences), interleaves pings, and reads them through Reader{CheckUTF8}, ReadMessage, ReadData or the standalone UTF8Reader under seeded segmentation and buffer sizes; non-trivial = invalid text present or a real transport split; distinct = trace digests",
 		Stub: stubWire, Assume: append([]string{"the clause 'all byte strings up to 3 bytes' is sampled through the cover, not enumerated"}, assumeCommon...),
 		LevelText: "seeded exploration; oracle is unicode/utf8.Valid on the concatenated payload: valid <=> delivered complete without error, invalid => ErrInvalidUTF8 no later than the end and never a complete message; binary never checked; UTF8Reader.Valid() after draining equals utf8.Valid and a reject is never premature.",
 		LevelNote: "trusted: unicode/utf8 as the definition of well-formed UTF-8.",
 		DesignRef: "§4 C07", Technique: "deterministic simulation: seeded fragment/segment/buffer boundaries vs unicode/utf8 oracle"},
-	{ID: "C08", Engine: "wire", Level: "exploration", Quick: 24000, Thorough: 2400000,
+	{ID: "C08", Engine: "wire", Level: "exploration", Quick: 80000, Thorough: 6000000,
 		Rule: "each run draws side, an entry point (ControlHandler.Handle on a masked or pre-unmasked source, ControlFrameHandler called directly, HandleControlMessage and its Client/Server variants, Reader loop with ControlFrameHandler as OnIntermediate, ReadMessage+HandleControlMessage, ReadData inline) and ping/pong/close frames with payloads 0..125 (close codes from every RFC class, valid / invalid-UTF-8 / 1-byte bodies) alone or between data fragments under seeded segmentation; or a history of 1-6 Write/Flush calls on NewControlWriter / NewControlWriterBuffer whose total crosses 125; non-trivial = at least one control frame handled; distinct = trace digests",
 		Stub: stubWire, Assume: assumeCommon,
 		LevelText: "seeded exploration; the reply ledger is decoded by the reference decoder: ping -> one pong with identical payload, pong -> nothing, close -> same code / empty / 1002 (1002 or 1007 for a bad reason) with a body the RFC close rules accept; every reply is a single final frame <=125, masked iff sent by a client, accepted by ws.CheckHeader under the peer's state; return value is ClosedError{code,reason} or a ws.ProtocolError; the control writer never emits a frame >125 or non-final and refuses the write that would cross the limit.",
 		LevelNote: "whether the close reason is echoed and the mask value are not checked; codes 1012-1014 and >=5000 are never generated (left open by the property).",
 		DesignRef: "§4 C08", Technique: "deterministic simulation: seeded control frames through every entry point vs reference reply table"},
-	{ID: "C11", Engine: "wire", Level: "exploration", Quick: 8000, Thorough: 800000,
+	{ID: "C11", Engine: "wire", Level: "exploration", Quick: 20000, Thorough: 1500000,
 		Rule: "each run draws a dialer configuration (0-3 subprotocols incl. an invalid token now and then, 0-3 extension offers with 0-11 parameters, repeated names, extra headers up to several KiB, Host override, URL form, read/write buffer sizes 0/16../4096, plain Upgrade or DebugDialer with either callback) and an upgrader configuration (Upgrader / HTTPUpgrader through a stub net/http hijacker / DebugUpgrader; Protocol, ProtocolCustom, Negotiate incl. wsflate.Extension, deprecated Extension, header writers, rejecting On* callbacks with custom status, buffer sizes, frames sent right behind the 101) and runs request -> response -> verdict on simulated transports with independently seeded segmentation per direction; non-trivial = every run (both peers are real code); distinct = trace digests",
 		Stub: append([]string{"net/http server loop: http.ReadRequest on the simulated bytes + stub ResponseWriter/Hijacker", "NetDial for DebugDialer: returns the simulated conn"}, stubWire...), Assume: assumeCommon,
 		LevelText: "seeded exploration of configuration pairs x chunkings. O1: both peers fail, or both succeed with equal subprotocol and equal extension lists (names and parameters in order), and the values equal a small model of the selectors where the model applies. O2: for one peer on byte-identical input, error, Handshake and bytes written are identical between one-segment/default-buffers and the seeded segmentation/buffer sizes (nonce reseeded identically). O3: Debug wrappers report exactly the request/response bytes, do not change the outcome, and every byte sent behind the 101 is readable once, in order.",
 		LevelNote: "dialer and upgrader run one after the other on recorded bytes (request, then response): for a strict request/response exchange this is equivalent to any interleaving, what an interleaving changes - how much is readable per Read - being the seeded segmentation; user callbacks that break their contract and client bytes pipelined before the response are not generated.",
 		DesignRef: "§4 C11", Technique: "deterministic simulation: real dialer vs real upgrader over simulated transports, seeded segmentation and buffer sizes, differential re-runs"},
-	{ID: "C12", Engine: "wire", Level: "exploration", Quick: 6000, Thorough: 400000,
+	{ID: "C12", Engine: "wire", Level: "exploration", Quick: 16000, Thorough: 1000000,
 		Rule: "each run draws a message (empty, tiny, incompressible, highly compressible, >32 KiB window), a compression level -2..9 and a history of Write(chunk)/Flush/Close on wsflate.Writer; or feeds wsflate.Reader the sync-flushed, tail-stripped output of an independent encoder (klauspost/compress or compress/flate used directly) through a segmented source with or without io.ByteReader; or exercises the frame helpers; or plugs in a faulty compressor (flush without sync marker, last byte dropped, stray byte after the marker, write error); non-trivial = history with more than one write/flush, an independent-encoder source, or a fault; distinct = trace digests",
 		Stub: append([]string{"compressor faults: wrappers around compress/flate injected through wsflate's constructor argument", "independent DEFLATE: github.com/klauspost/compress/flate v1.20.0 and compress/flate called directly"}, stubWire...), Assume: assumeCommon,
 		LevelText: "seeded exploration; oracle: writer output + 00 00 ff ff inflates (two independent decoders that must agree) to exactly the message after Flush and after Close; the reader recovers the message from the library's and from independent encoders' output for any chunking; helpers keep the header but RSV1/length and refuse non-final frames; a compressor that does not end a flush with the tail makes Flush fail.",
 		LevelNote: "the library contains no DEFLATE code of its own: what is under test is cbuf / suffixedReader / tail handling.",
 		DesignRef: "§4 C12", Technique: "deterministic simulation: seeded write/flush histories, segmented sources and injected compressor faults vs independent inflaters"},
-	{ID: "C13", Engine: "wire", Level: "exploration", Quick: 8000, Thorough: 600000,
+	{ID: "C13", Engine: "wire", Level: "exploration", Quick: 24000, Thorough: 2000000,
 		Rule: "each run either writes 1-4 compressed/uncompressed messages through wsflate.Writer -> wsutil.Writer(SetExtensions(&state)) with buffer sizes forcing 1..n fragments, pings written between fragments, either side, and reads them back through wsutil.Reader{Extensions,StateExtended} -> wsflate.Reader under seeded segmentation; or lets a scripted peer send every RSV pattern (0..7) on first, control and continuation frames; non-trivial = every run; distinct = trace digests",
 		Stub: stubWire, Assume: assumeCommon,
 		LevelText: "seeded exploration; oracle on the wire (reference decoder): RSV1 on the first frame of compressed messages and nowhere else; on receipt IsCompressed() = first frame had RSV1, unchanged by control frames between fragments, header handed over has RSV1 cleared and RSV2/3 untouched, RSV1 on a continuation or control frame is a ws.ProtocolError; the message read back equals the message written.",
 		LevelNote: "compressor is compress/flate; reader-side draining after the inflater reaches the end of the DEFLATE stream is done by the application as documented.",
 		DesignRef: "§4 C13", Technique: "deterministic simulation: documented writer/reader stacks over a simulated transport + scripted RSV patterns"},
-	{ID: "C16", Engine: "wire", Level: "fault_enumeration", Quick: 640, Thorough: 64000, QuickCap: 150, ThorCap: 1700,
+	{ID: "C16", Engine: "wire", Level: "fault_enumeration", Quick: 4000, Thorough: 160000, QuickCap: 150, ThorCap: 1700,
 		Rule: "workloads (stream, entry point, segmentation, application decisions) are sampled from the seed; for each workload the fault point is enumerated: every byte offset of the stream x {EOF, transport error} when the stream is <= 2 KiB (else all offsets around every header/frame boundary plus 64 seeded payload offsets), the same application decisions being replayed at every point; evaluations = workloads, fault_points_enumerated = executions; distinct = trace digests of workloads",
 		Stub: stubWire, Assume: assumeCommon,
 		LevelText: "fault enumeration: per sampled workload every cut point is executed. Oracle: units wholly before the cut are delivered exactly; no API reports success for the cut unit; a cut payload or a stream ending inside a message never yields io.EOF; control handlers never read a clean EOF before Header.Length bytes; Discard of a cut message fails; no reply is produced from a cut control frame.",
 		LevelNote: "a cut inside a header while no message is open only has to be an error (io.EOF included); ws.ReadFrame only has to return an error; which error is not checked.",
 		DesignRef: "§4 C16", Technique: "deterministic simulation: exhaustive cut-point enumeration per seeded workload"},
-	{ID: "C17", Engine: "wire", Level: "exploration", Quick: 6000, Thorough: 500000,
+	{ID: "C17", Engine: "wire", Level: "exploration", Quick: 16000, Thorough: 1200000,
 		Rule: "each run is a sequence of 2-6 operations drawn from: a dialer/upgrader round trip through every library-owned selection path (Upgrader Protocol / Extension / Negotiate incl. wsflate, HTTPUpgrader, Dialer Protocols/Extensions, answers whose parameters differ from the offer), ReadMessage and ReadData over generated streams (pings recycle pooled byte slices), HandleClose, the copying mask helpers (also on frames whose header is already masked), and client-side WriteMessage / WriteThrough / CipherWriter / Writer.Write with payloads across the pool classes up to >65536 and an optionally failing destination; what each operation returns is retained uncopied and re-checked against model-derived values after every later operation; the sim pool recycles immediately (lifo; tape and fresh for contrast) and poisons on put; non-trivial = every run; distinct = trace digests",
 		Stub: stubWire, Assume: assumeCommon,
 		LevelText: "seeded exploration of operation sequences with maximal aliasing pressure from the simulated pool: results must keep their model-derived value for the rest of the run; caller slices are bit-identical after non-mutating calls, also when the destination write fails; bytes handed to the destination and returned frames do not change when the caller scribbles on its slice; pool canaries intact.",
 		LevelNote: "results of user-owned callbacks (ProtocolCustom, ExtensionCustom, a Negotiate callback returning its argument) and ParseCloseFrameDataUnsafe are the caller's responsibility and are not generated.",
 		DesignRef: "§4 C17", Technique: "deterministic simulation: seeded operation sequences over a poison-on-put LIFO pool, retained results re-verified after every step"},
-	{ID: "C18", Engine: "wire", Level: "exploration", Quick: 24000, Thorough: 2400000,
+	{ID: "C18", Engine: "wire", Level: "exploration", Quick: 60000, Thorough: 4000000,
 		Rule: "each run draws an object class (wsutil.Writer via Reset / ResetOp / PutWriter+GetWriter, wsflate.Writer, wsflate.Reader, CipherReader/Writer, UTF8Reader, wsflate.Extension, wsutil.Reader across messages), a first life H1 (any history incl. an injected failed destination write, growth, DisableFlush, extensions, other side, unflushed partial message, truncated/corrupt compressed input, mid-sequence or rejected UTF-8, accepted offer), the reset, and a second life H2; non-trivial = every run (two lives); distinct = trace digests",
 		Stub: stubWire, Assume: assumeCommon,
 		LevelText: "seeded exploration with a differential oracle: the transcript of H2 (every return value, Size/Available/Buffered or Valid/Accepted getters, bytes sent) on the reused object equals the transcript of H2 on a freshly constructed object with the same buffer length, state and opcode, masks reseeded identically.",
 		LevelNote: "the buffer length of a wsutil.Writer is read by reflection (field raw) to build the fresh twin; ResetOp is compared with a fresh writer carrying the same extensions and flush mode, as documented.",
 		DesignRef: "§4 C18", Technique: "deterministic simulation: seeded two-life histories with injected I/O errors, differential against a fresh instance"},
-	{ID: "C19", Engine: "multi", Level: "exploration", Quick: 640, Thorough: 48000, QuickCap: 200, ThorCap: 1700, Race: true,
+	{ID: "C19", Engine: "multi", Level: "exploration", Quick: 1600, Thorough: 48000, QuickCap: 200, ThorCap: 1700, Race: true,
 		Rule:      "each run draws 2-8 sessions (thorough: up to 11), each a client task and a server task on their own simulated connection and a deterministic function of its sub-seed: handshake through DefaultDialer/Dialer vs ws.Upgrade / Upgrader{Protocol,Negotiate} / HTTPUpgrader(+UpgradeHTTP), optional permessage-deflate negotiation, 1-6 request/ack exchanges in both directions (WriteMessage variants up to 70000 bytes, GetWriter/PutWriter fragmented writes, ping+message answered inline by ReadData, precompiled frames, wsflate.CompressFrame/DecompressFrame, the compressed writer/reader stacks), then the closing handshake; the seeded scheduler picks the next task at every conn and pool operation (stickiness 0 / 1/2 / 9/10), the sim pool is shared (lifo/tape/fresh), reads are segmented; each session is then re-run alone; workers are built with -race and the scheduler's handoff is invisible to the detector; non-trivial = at least one task switch; distinct = schedule digests",
 		Stub:      []string{"task scheduler: /verif/multi (real goroutines released one at a time, raw read(2)/write(2) pipe handoff in //go:norace code)", "net.Conn: multi.Conn (in-memory rings, seeded read segmentation)", "github.com/gobwas/pool -> /verif/simpool (per-item happens-before only, poison on put, canaries, double-put detection)", "net/http server loop: http.ReadRequest + stub Hijacker", "math/rand: left unseeded in this engine (lock-free runtime source); masks and nonces never enter a transcript"},
 		Assume:    append([]string{"interleaving granularity is the yield-point set (every conn and pool operation); an unsynchronised shared access between two non-I/O statements is left to the race detector, which stays effective because the scheduler adds no happens-before edge", "the race detector keeps a bounded access history per location: false negatives only"}, assumeCommon...),
 		LevelText: "seeded exploration of interleavings of N independent sessions. Oracle: (1) each session's semantic transcript (handshake result, every payload checksum, acks, errors, close) equals the transcript of the same session run alone from the same sub-seed; (2) sim-pool invariants: no double put, poison canaries intact at reuse and at the end; (3) the race detector's log contains no report with a frame in github.com/gobwas/ws (a report wholly inside the harness is exit 2).",
 		LevelNote: "session scripts are confluent by construction (strict request/ack, no close of the transport), checked by the solo runs never deadlocking; masks and nonces are not reproducible in this engine and influence no decision.",
 		DesignRef: "§4 C19", Technique: "deterministic simulation: seeded race-detector-invisible task scheduler over real goroutines + solo/concurrent differential + go race detector"},
-	{ID: "C20", Engine: "dial", Level: "fault_enumeration", Quick: 1600, Thorough: 160000, QuickCap: 150, ThorCap: 1700,
+	{ID: "C20", Engine: "dial", Level: "fault_enumeration", Quick: 6400, Thorough: 400000, QuickCap: 150, ThorCap: 1700,
 		Rule:      "scenarios are sampled from the seed: context kind (Background / cancel-only / with deadline at instants around every peer event), Dialer.Timeout (none / shorter / longer), connect delay, ws/wss (stub TLS), WrapConn, peer (valid 101 after a delay in 1-4 segments with gaps and optional trailing frame / rejecting / silent / write-blocking), read buffer and per-read segment size; for each scenario the cancellation instant is enumerated: no cancel, cancel after return (order B), cancel at 7 fake-time instants, and cancel at entry and at successful exit of EVERY Read/Write on the conn with the watcher goroutine run to quiescence before the call proceeds (order A, incl. inside the final Read); evaluations = scenarios, fault_points_enumerated = Dial executions, each in its own synctest bubble; distinct = trace digests (return instants, conn call ledgers, errors)",
 		Stub:      []string{"clock, timers, context deadlines: testing/synctest fake clock (Go 1.26.8)", "net.Conn: dial.Conn (deadline-honouring, in-bubble sync.Cond + timers, full call ledger)", "NetDial / TLSClient / WrapConn: stubs returning the simulated conn, NetDial honours ctx during its connect delay", "peer: in-bubble timers delivering response segments; Sec-WebSocket-Accept computed independently (crypto/sha1)", "github.com/gobwas/pool -> /verif/simpool"},
 		Assume:    append([]string{"the runtime's choice between simultaneously ready select cases cannot be seeded; enumerated orders (A) and (B) never make both ready at once"}, assumeCommon...),
